@@ -9,6 +9,10 @@
 (*     [t |-> "a", n]   alias to the mapping node n                        *)
 (*     [t |-> "n", n]   the mapping node n itself, inline (its definition) *)
 (*     [t |-> "q", e]   sequence of values                                 *)
+(*     [t |-> "sd"]     the ANCHORED sequence G.S, defined here            *)
+(*     [t |-> "sa"]     an alias to the anchored sequence G.S              *)
+(* G.S is a sequence of values that may contain [t |-> "sa"] itself: a     *)
+(* cycle on which no mapping node lies.                                    *)
 (*                                                                         *)
 (* DecNode  - implementation-shaped: decodeYAML with its `seen` path set,  *)
 (*            rangeYAMLMapImpl with its `merged` set (one per top-level    *)
@@ -50,6 +54,8 @@ RangeEntries(G, ctx, level, es, i) ==
 RangeVal(G, ctx, level, v) ==
     CASE v.t \in {"a", "n"} -> RangeNode(G, ctx, level, v.n)
       [] v.t = "q" -> RangeSeq(G, ctx, level, v.e, 1)
+      [] v.t \in {"sd", "sa"} ->                                       \* the `merged` guard covers EVERY node, sequences too
+            (IF "S" \in ctx.merged THEN ctx ELSE RangeSeq(G, [ctx EXCEPT !.merged = @ \cup {"S"}], level, G.S, 1))
       [] OTHER -> [ctx EXCEPT !.bad = TRUE]                           \* cannot range over a scalar
 RangeSeq(G, ctx, level, e, i) ==
     IF i > Len(e) THEN ctx ELSE RangeSeq(G, RangeVal(G, ctx, level, e[i]), level, e, i + 1)
@@ -69,16 +75,24 @@ DecVal(G, seen, v) ==
     CASE v.t = "s" -> OK(Str(v.s))
       [] v.t \in {"a", "n"} -> DecNode(G, seen, v.n)
       [] v.t = "q" -> DecSeq(G, seen, v.e, 1, <<>>)
+      [] v.t \in {"sd", "sa"} -> (IF "S" \in seen THEN ERR ELSE DecSeq(G, seen \cup {"S"}, G.S, 1, <<>>))   \* as a VALUE: a sequence; itself inside itself is a value cycle
 DecSeq(G, seen, e, i, acc) ==
     IF i > Len(e) THEN OK([t |-> "q", e |-> acc])
     ELSE LET d == DecVal(G, seen, e[i]) IN IF d.err THEN ERR ELSE DecSeq(G, seen, e, i + 1, Append(acc, d.v))
 
 (* =============== rule-shaped =============== *)
-RECURSIVE Sources(_), SrcSeq(_, _)
-Sources(v) == CASE v.t \in {"a", "n"} -> <<v.n>> [] v.t = "q" -> SrcSeq(v.e, 1) [] OTHER -> <<>>
-SrcSeq(e, i) == IF i > Len(e) THEN <<>> ELSE Sources(e[i]) \o SrcSeq(e, i + 1)
-RECURSIVE MergeOK(_)
-MergeOK(v) == CASE v.t \in {"a", "n"} -> TRUE [] v.t = "q" -> \A i \in 1..Len(v.e) : MergeOK(v.e[i]) [] OTHER -> FALSE
+\* the mappings a merge value names, in order; the anchored sequence contributes its elements ONCE (a cycle through it adds nothing)
+RECURSIVE SourcesV(_, _, _), SrcSeqV(_, _, _, _)
+SourcesV(G, v, inS) == CASE v.t \in {"a", "n"} -> <<v.n>> [] v.t = "q" -> SrcSeqV(G, v.e, 1, inS)
+                         [] v.t \in {"sd", "sa"} -> (IF inS THEN <<>> ELSE SrcSeqV(G, G.S, 1, TRUE))
+                         [] OTHER -> <<>>
+SrcSeqV(G, e, i, inS) == IF i > Len(e) THEN <<>> ELSE SourcesV(G, e[i], inS) \o SrcSeqV(G, e, i + 1, inS)
+Sources(G, v) == SourcesV(G, v, FALSE)
+RECURSIVE MergeOKV(_, _, _)
+MergeOKV(G, v, inS) == CASE v.t \in {"a", "n"} -> TRUE [] v.t = "q" -> \A i \in 1..Len(v.e) : MergeOKV(G, v.e[i], inS)
+                         [] v.t \in {"sd", "sa"} -> (inS \/ \A i \in 1..Len(G.S) : MergeOKV(G, G.S[i], TRUE))
+                         [] OTHER -> FALSE
+MergeOK(G, v) == MergeOKV(G, v, FALSE)
 
 \* resolved entries (key, value) of mapping `name`; `visiting` = mappings being merged (merge cycles add nothing)
 RECURSIVE Entries(_, _, _), EntLoop(_, _, _, _, _), SrcLoop(_, _, _, _, _, _), AddAll(_, _, _, _)
@@ -87,7 +101,7 @@ EntLoop(G, name, visiting, i, acc) ==
     LET es == G[name] IN
     IF i > Len(es) THEN acc
     ELSE IF ~es[i].m THEN EntLoop(G, name, visiting, i + 1, LSet(acc, es[i].k, es[i].v))         \* explicit: first position, last value
-    ELSE EntLoop(G, name, visiting, i + 1, SrcLoop(G, name, visiting, Sources(es[i].v), 1, acc)) \* merged keys stand here
+    ELSE EntLoop(G, name, visiting, i + 1, SrcLoop(G, name, visiting, Sources(G, es[i].v), 1, acc)) \* merged keys stand here
 SrcLoop(G, name, visiting, srcs, j, acc) ==
     IF j > Len(srcs) THEN acc
     ELSE IF srcs[j] \in visiting THEN SrcLoop(G, name, visiting, srcs, j + 1, acc)               \* merge cycle: nothing
@@ -98,7 +112,7 @@ AddAll(own, src, x, acc) ==                                            \* explic
     ELSE AddAll(own, src, x + 1, Append(acc, src[x]))
 
 RECURSIVE SemNode(_, _, _), SemVal(_, _, _), SemPairs(_, _, _, _, _), SemSeq(_, _, _, _, _)
-WellMerged(G, name) == \A i \in 1..Len(G[name]) : G[name][i].m => MergeOK(G[name][i].v)
+WellMerged(G, name) == \A i \in 1..Len(G[name]) : G[name][i].m => MergeOK(G, G[name][i].v)
 SemNode(G, path, name) ==
     IF name \in path THEN ERR                                          \* a value cycle
     ELSE SemPairs(G, path \cup {name}, Entries(G, name, {}), 1, <<>>)
@@ -109,6 +123,7 @@ SemVal(G, path, v) ==
     CASE v.t = "s" -> OK(Str(v.s))
       [] v.t \in {"a", "n"} -> SemNode(G, path, v.n)
       [] v.t = "q" -> SemSeq(G, path, v.e, 1, <<>>)
+      [] v.t \in {"sd", "sa"} -> (IF "S" \in path THEN ERR ELSE SemSeq(G, path \cup {"S"}, G.S, 1, <<>>))
 SemSeq(G, path, e, i, acc) ==
     IF i > Len(e) THEN OK([t |-> "q", e |-> acc])
     ELSE LET d == SemVal(G, path, e[i]) IN IF d.err THEN ERR ELSE SemSeq(G, path, e, i + 1, Append(acc, d.v))
